@@ -616,6 +616,31 @@ Print Assumptions C10_src_eligible.
 Print Assumptions C10_src_enum_mapping.
 Print Assumptions C10_src_enum_order_same.
 
+(* ------------------------------------------------------------------ tie of the trusted constructor to the source
+   The `_trust_supplied_values` branch of Structure.__init__ as translated from today's source (Gen/InitSrc.v): for
+   every world (whatever setattr / __validate__ would do: they are never called), every class, every positional
+   argument tuple and every keyword list without repeated or bookkeeping names, the instance __dict__ is the flag,
+   then every keyword as supplied, then `_instantiated` = True and an empty `_none_fields` - [from_trusted] above. *)
+From TP Require Import Base.PyOpsInit Gen.InitSrc Struct.InitModel Struct.EntrySites Struct.InitReportsProofs.
+
+Theorem C10_src_init_trusted :
+  forall w : world,
+    (forall s : istate, w_super w (s2p "__init__") [] s = (s, inl PNone)) ->
+    forall (c : classdef) (ff : bool) (args : pyval) (kw : kwargs),
+      trusted_dom kw = true ->
+      exists s : istate,
+        Structure__init (init_heap c ff) w args (kw_dict kw) s_trusted = (s, inl tt) /\
+        s = s_trusted ++ kw ++ [(n_instantiated, PBool true); (n_none_fields, PSet false [])] /\
+        PStruct (c_name c) (public s) = trusted_instance c kw /\
+        PStruct (c_name c) (tl (public s)) = from_trusted c kw.
+Proof. exact generated_init_trusted. Qed.
+
+Example C10_src_init_trusted_nonvacuous :
+  trusted_dom [(s2p "a", PStr (s2p "not an int")); (s2p "zz", PNone)] = true.
+Proof. vm_compute. reflexivity. Qed.
+
+Print Assumptions C10_src_init_trusted.
+
 (* ------------------------------------------------------------------ the trusted PATH, tied to the source
    (Gen/TrustedSrc.v: the trusted branch of deserialize_structure_internal, _remap_input,
    Structure.from_trusted_data; Ser/TrustedPathProofs.v).  [ext] / [mcall] are the functions / methods the path calls
